@@ -60,6 +60,7 @@ package channel
 //@   ensures[C11:body] result1 == nil || isCTMismatch(result1) ==> len(result0) <= rdPos(h.rd) - old(rdPos(h.rd)) && forall(i int, 0 <= i && i < len(result0) ==> result0[i] == rdIn(h.rd)[rdPos(h.rd) - len(result0) + i])
 //@   ensures[C12:mismatch] isCTMismatch(result1) ==> unboxas(result1, "*channel.ContentTypeMismatchError") != nil && unboxas(result1, "*channel.ContentTypeMismatchError").Want == h.mtype && unboxas(result1, "*channel.ContentTypeMismatchError").Got != h.mtype
 //@   ensures[C12:exhausted] old(rdPos(h.rd)) == rdLen(h.rd) ==> result1 != nil && result0 == nil
+//@   ensures[C12:decimal-length] result1 == nil || isCTMismatch(result1) ==> decimalOf(contentLength, len(result0)) && contentLength != ""
 //@   loop 1 invariant rdPos(h.rd) >= old(rdPos(h.rd)) && rdPos(h.rd) <= rdLen(h.rd)
 //@   loop 1 decreases rdLen(h.rd) - rdPos(h.rd)
 
